@@ -9,8 +9,12 @@ CONFIG = {
         "modelled, not verified: cmap/format0.go, format4.go, format6.go, format12.go, cmap.go (Decode, Encode, Get, GetBest), write.go InstallCMap; tied by Gen/C09.v constants and by the correspondence run",
         "seehuhn.de/go/dijkstra is NOT trusted: format4_any_path_correct holds for every path of AppendEdges edges; the harness checks that the segments found in Encode's output form such a path",
         "Go maps are canonicalised as strictly sorted association lists / total functions code -> glyph (0 = absent)",
+        "sort.Search on the slice of occupied ranges in cmap.Decode is modelled as 'first index whose start is >= o' (the slice is kept sorted by start); slices.Insert as list insertion",
+        "code2rune for platform 1 (mac.DecodeOne) is a parameter of the decoder models; the correspondence run passes the implementation's 256-entry table",
+        "oracle readers: harness/c09/spec.go (formats 0, 4, 6, 12 written from the OpenType text) and golang.org/x/image/font/sfnt GlyphIndex on Go Regular carrying the encoded table",
     ],
     "assumptions": [
+        "table round trip (P2): proved up to the final assembly step (coq/C09/Proofs_Trt.v: offset loop, record loop, range logic; last lemma parked in Proofs_Trt_final.v.wip); the round trip itself is checked by the oracle on every tenc/tdec case",
         "format 4: the emitted subtable fits the 16-bit length field (2*(8+4*segCount+|glyphIdArray|) <= 65535); larger maps are outside the property's quantifier (the Length field wraps silently, DESIGN 5.C)",
         "format 12: keys below 0xFFFFFFFF (the decoder rejects endCharCode = 0xFFFFFFFF), at most 65536 entries",
         "glyph ids are 16 bit (glyph.ID = uint16)",
